@@ -968,6 +968,38 @@ def merge_contracts():
             'implies(max_levels == 1 or (not %s and not %s), result["a"] == '
             'item_merger(V1_a, V2_a))' % (MAP2, SEQ2)],
         serves=('C13',), native=False))
+    # the same when both operands are yaql dicts over the SAME keys - also
+    # when they happen to be equal: a common key always goes through its
+    # merger (lists are concatenated-and-deduplicated, a custom item merger
+    # is called), the left operand is never handed back as it is
+    class fd_of(d_of):
+        def __call__(self, name, path):
+            from contracts._util import obj as _obj
+            o = _obj('yaql.language.utils.FrozenDict', _d=None,
+                     _hash=None)(name, path)
+            o.fields['_d'] = d_of.__call__(self, name, path)
+            return o
+    cs.append(Contract(
+        Q + '_merge_dicts', name='queries._merge_dicts/same-keys',
+        params=dict(dict1=fd_of(('a',), 'V1'), dict2=fd_of(('a',), 'V2'),
+                    list_merge_func=TFunc(2), item_merger=TFunc(2),
+                    max_levels=TInt),
+        requires=['max_levels >= 0'],
+        raises={'TypeError': '(max_levels != 1 and %s and not %s) or '
+                '(max_levels != 1 and not %s and %s and not %s) or '
+                '(max_levels != 1 and %s and %s)' % (
+                    MAP2, MAP1, MAP2, SEQ2, SEQ1, MAP2, MAP1)},
+        ensures=[
+            'len(result) == 1', 'isinstance(result, "FrozenDict")',
+            'result is not dict1 and result is not dict2',
+            'implies(max_levels != 1 and %s, len(%s) == 1 and '
+            'result["a"] == %s[0][2])' % (MAP2, RC, RC),
+            'implies(max_levels == 1 or not %s, len(%s) == 0)' % (MAP2, RC),
+            'implies(max_levels != 1 and not %s and %s, result["a"] == '
+            'list_merge_func(V1_a, V2_a))' % (MAP2, SEQ2),
+            'implies(max_levels == 1 or (not %s and not %s), result["a"] == '
+            'item_merger(V1_a, V2_a))' % (MAP2, SEQ2)],
+        serves=('C13',), native=False))
     MD = 'contract:queries._merge_dicts'
     # mergeWith hands the dictionaries, the mergers and the depth budget to
     # _merge_dicts unchanged; the default item merger takes the second item
